@@ -4,6 +4,7 @@ CONSTANTS
   SdCases <- NoCases
   HlCases <- NoCases
   BtCases <- NoCases
+  NbCases <- NoCases
   CpCases <- NoCases
   MaxOps = 2
   KeepHist = TRUE
